@@ -118,7 +118,8 @@ func newRouter(config RouterConfig, logger watermill.LoggerAdapter) *Router {
 		runningHandlersWg:     &sync.WaitGroup{},
 		runningHandlersWgLock: &sync.Mutex{},
 
-		handlerAdded: make(chan struct{}),
+		// buffered: a handler may be added before the watcher of a router started without handlers is waiting for the signal
+		handlerAdded: make(chan struct{}, 1),
 
 		middlewaresLock: &sync.RWMutex{},
 		handlersLock:    &sync.RWMutex{},
